@@ -130,6 +130,7 @@ use iceoryx2_cal::zero_copy_connection::{
 };
 use iceoryx2_log::{fail, warn};
 
+use crate::node::SharedNode;
 use crate::port::details::chunk::ChunkMut;
 use crate::port::details::data_segment_shared_state::DataSegmentSharedState;
 use crate::port::details::sender::*;
@@ -208,6 +209,9 @@ pub struct PublisherSharedState<Service: service::Service> {
     // Otherwise the process might crash during cleanup, has already removed the tag but other resources
     // are still existing. This would make a cleanup from another process impossible.
     port_tag: Service::StaticStorage,
+    // Keeps the node alive until the port tag is removed. If the port is the last owner of the
+    // node, the node could otherwise not remove its directory since it still contains the tag.
+    _shared_node: SharedNode<Service>,
 }
 
 impl<Service: service::Service> DataSegmentSharedState for PublisherSharedState<Service> {
@@ -264,6 +268,7 @@ impl<Service: service::Service> Abandonable for PublisherSharedState<Service> {
             )
         }
         unsafe { Service::StaticStorage::abandon_in_place(NonNull::from_mut(&mut this.port_tag)) }
+        unsafe { SharedNode::abandon_in_place(NonNull::from_mut(&mut this._shared_node)) };
     }
 }
 
@@ -477,6 +482,7 @@ impl<
                         "{msg} since the port tag, that is required for cleanup, could not be created. [{e:?}]");
             }
         };
+        let shared_node = service.shared_node().clone();
 
         let static_config = publisher_factory
             .factory
@@ -547,6 +553,7 @@ impl<
         let publisher_shared_state =
             <Service as service::Service>::ArcThreadSafetyPolicy::new(PublisherSharedState {
                 port_tag,
+                _shared_node: shared_node,
                 is_active: AtomicBool::new(true),
                 sender: Sender {
                     data_segment,
